@@ -1,7 +1,7 @@
 (* C10 — Names, numbers and type references are well-formed.
    Property theorems only: each closed by `exact <lemma>`, pinned by Check, followed by Print Assumptions. *)
 From ApolloVerif Require Import Base.Chars Base.Utf8 Ast.Names Ast.NamesProofs Ast.Numbers Ast.NumbersProofs
-  Ast.TypeRef Ast.TypeRefProofs.
+  Ast.Ast Ast.TypeRef Ast.TypeRefProofs.
 From Coq Require Import ZArith.
 
 (* ---- names: Name::is_valid_syntax over the UTF-8 bytes is the GraphQL Name grammar ---- *)
@@ -127,7 +127,7 @@ Proof.
   - apply SFP; [unfold SpecDigit; lia|constructor].
 Qed.
 
-Definition ex_ty : tref := TrNonNullList (TrList (TrNonNullNamed [73; 110; 116])).
+Definition ex_ty : ty := TNonNullList (TList (TNonNullNamed [73; 110; 116])).
 Example C10_nonvacuous_type :
   tref_wf ex_ty = true /\ (tref_depth ex_ty <= tref_default_limit)%nat /\
   tref_print ex_ty = [91; 91; 73; 110; 116; 33; 93; 93; 33] /\
